@@ -1,6 +1,8 @@
 import Labella.Model.LayoutSpec
 import Labella.Proofs.LayoutSep
 import Labella.Proofs.DistributeLemmas
+import Labella.Proofs.PermLemmas
+import Labella.Proofs.SortEval
 /-! # C06 — a layout is a pure function of the labels and options
 
 For every label list (ties, identical positions, labels wider than a layer, 1–2 labels) and every option set. -/
@@ -40,5 +42,82 @@ theorem sortIds_canonical (l1 l2 : List Label) (hp : l1.Perm l2)
     (sortIds l1).map (fun i => l1.getD i ⟨0, 0⟩) = (sortIds l2).map (fun i => l2.getD i ⟨0, 0⟩) := by
   rw [sortIds_getD, sortIds_getD]
   exact sortedLabels_canonical l1 l2 hp hint
+
+/-! ### permutation invariance of the whole multi-layer pipeline -/
+
+/-- what an observer sees of a placed item: the data position and width of the label it belongs to, whether it
+is a stub, of which level (0 for a label), and its position -/
+def valueOf (labels : List Label) (p : Placed) : Rat × Rat × Bool × Nat × Int :=
+  (idealOf labels p.ref.id, widthOf labels p.ref.id, p.ref.isStub,
+    (match p.ref with | .stub _ l => l | .label _ => 0), p.pos)
+
+theorem valueOf_eq_obs (labels : List Label) (p : Placed) : valueOf labels p = Placed.obs labels p := by
+  rcases p with ⟨r, pos⟩
+  cases r <;> rfl
+
+/-- presenting the same labels in a different input order yields, layer by layer and item by item, the same
+layout — provided labels that share a data position also share a width (such labels are interchangeable) -/
+theorem compute_perm (o : FOpts) (l1 l2 : List Label) (hp : l1.Perm l2)
+    (hint : ∀ a ∈ l1, ∀ b ∈ l1, a.ideal = b.ideal → a = b) :
+    (compute o l1).map (fun layer => layer.map (valueOf l1))
+      = (compute o l2).map (fun layer => layer.map (valueOf l2)) := by
+  have e : ∀ l : List Label, valueOf l = Placed.obs l := fun l => funext (valueOf_eq_obs l)
+  rw [e l1, e l2]
+  exact compute_perm_obs o l1 l2 hp hint
+
+/-- the relabelled form for the layering algorithms (`simple`, `overlap`): the layout of a permuted input IS the
+layout of the original with the label indices renamed by a bijection `π` carrying each label to an equal one -/
+theorem compute_relabel (o : FOpts) (l1 l2 : List Label) (hp : l1.Perm l2)
+    (hint : ∀ a ∈ l1, ∀ b ∈ l1, a.ideal = b.ideal → a = b) (halg : o.algorithm ≠ .none) :
+    ∃ π : Nat → Nat, Function.Injective π ∧ (∀ i, l2[π i]? = l1[i]?) ∧
+      compute o l2 = (compute o l1).map (List.map (Placed.rename π)) := by
+  obtain ⟨π, R, hs⟩ := exists_relabel l1 l2 hp hint
+  exact ⟨π, R.inj, R.get, compute_rel R o hs hp.length_eq halg⟩
+
+-- non-vacuity: 6 labels (with a tie), 3 layers, both walls; the input and a permutation of it
+def permExOpts : FOpts :=
+  { nodeSpacing := 3, lineSpacing := 2, minPos := some 0, maxPos := some 30,
+    algorithm := .overlap, density := 3/4, stubWidth := 1 }
+def permExL1 : List Label := [⟨5, 8⟩, ⟨5, 8⟩, ⟨9, 6⟩, ⟨10, 7⟩, ⟨20, 9⟩, ⟨22, 5⟩]
+def permExL2 : List Label := [⟨22, 5⟩, ⟨5, 8⟩, ⟨10, 7⟩, ⟨20, 9⟩, ⟨5, 8⟩, ⟨9, 6⟩]
+
+/-- (a shortcut: the nested instance search for lists of lists of 5-tuples exceeds the default size limit) -/
+local instance valueDecEq : DecidableEq (Rat × Rat × Bool × Nat × Int) := inferInstance
+
+example :
+    (compute permExOpts permExL1).map (fun layer => layer.map (valueOf permExL1)) =
+      [[(5, 8, true, 0, 0), (5, 8, true, 0, 4), (9, 6, true, 0, 6), (10, 7, false, 0, 14),
+        (20, 9, true, 0, 20), (22, 5, false, 0, 26)],
+       [(5, 8, true, 1, 0), (5, 8, true, 1, 3), (9, 6, false, 0, 10), (20, 9, false, 0, 20)],
+       [(5, 8, false, 0, 4), (5, 8, false, 0, 15)]] ∧
+    (compute permExOpts permExL2).map (fun layer => layer.map (valueOf permExL2)) =
+      (compute permExOpts permExL1).map (fun layer => layer.map (valueOf permExL1)) ∧
+    -- the index-level results differ: the two presentations number the labels differently
+    (compute permExOpts permExL1).map (fun layer => layer.map (·.ref)) ≠
+      (compute permExOpts permExL2).map (fun layer => layer.map (·.ref)) := by
+  -- `List.mergeSort` does not reduce in the kernel: evaluate the equal pipeline `compute'` (stable insertion sort)
+  rw [← compute'_eq, ← compute'_eq]
+  decide +kernel
+
+local instance labelDecEq : DecidableEq Label := fun a b =>
+  decidable_of_iff (a.ideal = b.ideal ∧ a.width = b.width) (by cases a; cases b; simp)
+
+-- the hypotheses of `compute_perm` hold on this instance (the two labels at 5 are interchangeable) …
+theorem permEx_hyps : permExL1.Perm permExL2 ∧ ∀ a ∈ permExL1, ∀ b ∈ permExL1, a.ideal = b.ideal → a = b := by decide +kernel
+
+-- … so the theorem applies to it
+example : (compute permExOpts permExL1).map (fun layer => layer.map (valueOf permExL1))
+    = (compute permExOpts permExL2).map (fun layer => layer.map (valueOf permExL2)) :=
+  compute_perm permExOpts permExL1 permExL2 permEx_hyps.1 permEx_hyps.2
+
+-- the tie hypothesis cannot be dropped: two labels at the same data position with different widths keep their
+-- input order (the sorts are stable), and an observer sees the difference
+example :
+    (compute permExOpts [⟨5, 8⟩, ⟨5, 2⟩]).map (fun layer => layer.map (valueOf [⟨5, 8⟩, ⟨5, 2⟩]))
+      = [[(5, 8, false, 0, 4), (5, 2, false, 0, 12)]] ∧
+    (compute permExOpts [⟨5, 2⟩, ⟨5, 8⟩]).map (fun layer => layer.map (valueOf [⟨5, 2⟩, ⟨5, 8⟩]))
+      = [[(5, 2, false, 0, 1), (5, 8, false, 0, 9)]] := by
+  rw [← compute'_eq, ← compute'_eq]
+  decide +kernel
 
 end Labella.C06
